@@ -63,142 +63,188 @@ BREAKING = {"m2-flip", "m2-drop", "wrong-code", "m4-flip", "m4-drop-proof", "m4-
 PRESERVING = {"none", "m6-dup-inner-other", "m2-reorder", "m4-reorder", "m6-reorder", "m6-reorder-inner", "m2-drop-state", "m4-drop-state", "m6-drop-state"}
 
 
+class SetupPeer:
+    """Reference accessory for one pair-setup exchange with one reply policy applied.  `respond(items)` takes the decoded request TLV
+    and returns the raw reply bytes; the message-level layers and the transport-level layers share it."""
+
+    def __init__(self, case):
+        self.case = case
+        k = self.k = case["k"]
+        self.code, self.ios_id = case["code"], case["ios_id"]
+        self.acc_id = case["acc_id"].encode()
+        self.fault = case["fault"]
+        self.name = self.fault[0]
+        self.salt = (bytes(case.get("salt_zeros", 0)) + h("salt", k))[:16]
+        self.a = int.from_bytes(h("a", k)[:16], "big") | 1
+        self.b = int.from_bytes(h("b", k)[:16], "big") | 1
+        self.ident = RefIdentity(self.acc_id, h("acc-ltsk", k))
+        self.acc = RefPairSetup(self.ident, self.code if self.name != "wrong-code" else case["other_code"], self.salt, self.b)
+        if self.name == "wrong-code" and case["other_code"] == self.code:
+            self.name, self.fault = "none", ["none"]
+        self.lt_seed = h("ios-new-ltsk", k)
+        self.stage = "m1"
+        self.malformed = None
+        self.requests = 0
+
+    def respond(self, items) -> bytes:
+        self.requests += 1
+        st_ = dict(items).get(T_STATE)
+        if st_ == b"\x01":
+            return self._m2(items)
+        if st_ == b"\x03":
+            return self._m4(items)
+        if st_ == b"\x05":
+            return self._m6(items)
+        self.malformed = f"request with State {st_!r}: {items!r:.200}"
+        return tlv_enc([(T_STATE, b"\x02"), (T_ERROR, b"\x01")])
+
+    def _m2(self, items):
+        name, fault = self.name, self.fault
+        m1 = dict(items)
+        if m1.get(refhap.T_METHOD) not in (b"\x00", b"\x01"):
+            self.malformed = f"M1 = {m1!r}"
+        m2 = self.acc.m2()
+        if name == "m2-flip":
+            field = {"salt": T_SALT, "pk": T_PK, "state": T_STATE}[fault[1]]
+            m2 = [(t, flip(v, fault[2]) if t == field else v) for t, v in m2]
+        elif name == "m2-drop":
+            field = {"salt": T_SALT, "pk": T_PK}[fault[1]]
+            m2 = [(t, v) for t, v in m2 if t != field]
+        elif name == "m2-reorder":
+            m2 = list(reversed(m2))
+        elif name == "m2-drop-state":
+            m2 = [(t, v) for t, v in m2 if t != T_STATE]
+        self.stage = "m2"
+        return tlv_enc(m2)
+
+    def _m4(self, items):
+        name, fault, acc = self.name, self.fault, self.acc
+        m4 = acc.handle_m3(items)
+        if name == "wrong-code":
+            # an accessory that does not know the code cannot verify M1; it answers with the proof of its own (wrong) exchange
+            A = int.from_bytes(dict(items)[T_PK], "big")
+            acc.srp.finish(A)
+            m4 = [(T_STATE, b"\x04"), (T_PROOF, acc.srp.M2)]
+        elif name == "m4-flip":
+            m4 = [(t, flip(v, fault[1]) if t == T_PROOF else v) for t, v in m4]
+        elif name == "m4-truncate-proof":
+            n_ = 1 + fault[1] % 63
+            m4 = [(t, (v[-n_:] if fault[1] & 64 else v[:n_]) if t == T_PROOF else v) for t, v in m4]
+            if int.from_bytes(dict(m4)[T_PROOF], "big") == int.from_bytes(acc.srp.M2, "big"):
+                self.name = "none"        # only zero bytes were dropped: numerically the same proof
+        elif name == "m4-drop-proof":
+            m4 = [(t, v) for t, v in m4 if t != T_PROOF]
+        elif name == "m4-other-proof":
+            other = refhap.SrpExchange(self.code, self.salt, self.b + 2).finish(acc.srp.A)
+            m4 = [(t, other.M2 if t == T_PROOF else v) for t, v in m4]
+        elif name == "m4-reorder":
+            m4 = list(reversed(m4))
+        elif name == "m4-drop-state":
+            m4 = [(t, v) for t, v in m4 if t != T_STATE]
+        self.stage = "m4"
+        return tlv_enc(m4)
+
+    def _m6(self, items):
+        name, fault, acc, k = self.name, self.fault, self.acc, self.k
+        m6 = acc.handle_m5(items)
+        raw6 = None
+        if name.startswith("m6-") and acc.m5_ok:
+            inner = acc.inner_m6()
+            enc_key, label = None, b"PS-Msg06"
+            rebuild = True
+            if name == "m6-flip":
+                m6 = [(t, flip(v, fault[1]) if t == T_ENC else v) for t, v in m6]
+                rebuild = False
+            elif name == "m6-drop-enc":
+                m6 = [(t, v) for t, v in m6 if t != T_ENC]
+                rebuild = False
+            elif name == "m6-reorder":
+                m6 = list(reversed(m6))
+                rebuild = False
+            elif name == "m6-drop-state":
+                m6 = [(t, v) for t, v in m6 if t != T_STATE]
+                rebuild = False
+            elif name == "m6-truncate":
+                raw = tlv_enc(m6)
+                raw6 = raw[:1 + fault[1] % (len(raw) - 1)]
+                rebuild = False
+            elif name == "m6-wrong-key":
+                enc_key = h("wrong-key", k)
+            elif name == "m6-wrong-label":
+                label = [b"PS-Msg05", b"PV-Msg02", b"PS-Msg04", bytes(8)][fault[1] % 4]
+            elif name == "m6-wrong-signer":
+                inner = acc.inner_m6(sign_key=ed_from_seed(h("mallory", k)))
+            elif name == "m6-other-id-unsigned":      # signature made for the real id, another id presented
+                inner = [(t, b"11:22:33:44:55:66" if t == T_ID else v) for t, v in inner]
+            elif name == "m6-other-ltpk-unsigned":    # signature by the real key, another key presented
+                inner = [(t, ed_pub(ed_from_seed(h("mallory", k))) if t == T_PK else v) for t, v in inner]
+            elif name == "m6-dup-inner-other":
+                # a second, unsigned Identifier / LTPK next to the signed ones (not adjacent to them), in either order
+                other_id, other_pk = b"66:55:44:33:22:11", ed_pub(ed_from_seed(h("mallory", k)))
+                extra = [[(T_ID, other_id)], [(T_PK, other_pk)], [(T_ID, other_id), (T_PK, other_pk)]][fault[1] % 3]
+                if fault[1] & 4:
+                    inner = inner + extra
+                else:
+                    # unsigned values first, then the signature, then the signed values
+                    inner = extra + [(T_SIG, dict(inner)[T_SIG])] + [x for x in inner if x[0] != T_SIG]
+            elif name == "m6-transcript":
+                order = [(1, 0, 2), (0, 2, 1), (2, 1, 0), (1, 2, 0), (2, 0, 1)][fault[1] % 5]
+                inner = acc.inner_m6(transcript=lambda ax, idb, pk: b"".join([(ax, idb, pk)[i] for i in order]))
+            elif name == "m6-drop-inner":
+                field = [T_ID, T_PK, T_SIG][fault[1] % 3]
+                inner = [(t, v) for t, v in inner if t != field]
+            elif name == "m6-reorder-inner":
+                inner = list(reversed(inner))
+            elif name == "m6-ltpk-len":
+                n = [0, 31, 33][fault[1] % 3]
+                inner = [(t, (v + b"\x00")[:n] if t == T_PK else v) for t, v in inner]
+            elif name == "m6-flip-inner":
+                field = [T_ID, T_PK, T_SIG][fault[1] % 3]
+                inner = [(t, flip(v, fault[2]) if t == field else v) for t, v in inner]
+            if rebuild:
+                m6 = acc.m6(inner, enc_key=enc_key, label=label)
+        self.stage = "m6"
+        return raw6 if raw6 is not None else tlv_enc(m6)
+
+
 def run_case(case, R):
-    k = case["k"]
-    code, ios_id = case["code"], case["ios_id"]
-    acc_id = case["acc_id"].encode()
+    peer = SetupPeer(case)
     transport = case.get("decode", "ip")
-    fault = case["fault"]
-    name = fault[0]
-    salt = (bytes(case.get("salt_zeros", 0)) + h("salt", k))[:16]
-    a = int.from_bytes(h("a", k)[:16], "big") | 1
-    b = int.from_bytes(h("b", k)[:16], "big") | 1
-    ident = RefIdentity(acc_id, h("acc-ltsk", k))
-    acc = RefPairSetup(ident, code if name != "wrong-code" else case["other_code"], salt, b)
-    if name == "wrong-code" and case["other_code"] == code:
-        name, fault = "none", ["none"]
-    lt_seed = h("ios-new-ltsk", k)
-    result, exc, stage = None, None, "m1"
-    R.cls("fault:" + name, "decode:" + transport)
-    R.nt(name != "none")
-    what = f"fault={fault} decode={transport} code={code}"
-    with injected(a, lt_seed):
+    result, exc = None, None
+    R.cls("fault:" + peer.name, "decode:" + transport)
+    with injected(peer.a, peer.lt_seed):
         try:
             g1 = perform_pair_setup_part1(case.get("with_auth", True))
             req, exp = g1.send(None)
-            m1 = dict(wire(req))
-            if m1.get(T_STATE) != b"\x01" or m1.get(refhap.T_METHOD) not in (b"\x00", b"\x01"):
-                R.fail("C03.m1-malformed", f"M1 = {m1!r}")
+            raw = peer.respond(wire(req))
+            if peer.malformed:
+                R.fail("C03.m1-malformed", peer.malformed)
                 return
-            m2 = acc.m2()
-            if name == "m2-flip":
-                field = {"salt": T_SALT, "pk": T_PK, "state": T_STATE}[fault[1]]
-                m2 = [(t, flip(v, fault[2]) if t == field else v) for t, v in m2]
-            elif name == "m2-drop":
-                field = {"salt": T_SALT, "pk": T_PK}[fault[1]]
-                m2 = [(t, v) for t, v in m2 if t != field]
-            elif name == "m2-reorder":
-                m2 = list(reversed(m2))
-            elif name == "m2-drop-state":
-                m2 = [(t, v) for t, v in m2 if t != T_STATE]
-            stage = "m2"
             try:
-                g1.send(dec(transport, tlv_enc(m2), exp))
+                g1.send(dec(transport, raw, exp))
                 raise RuntimeError("part1 yielded twice")
             except StopIteration as r:
                 s_salt, s_pk = r.value
-            g2 = perform_pair_setup_part2(code, ios_id, s_salt, s_pk)
+            g2 = perform_pair_setup_part2(peer.code, peer.ios_id, s_salt, s_pk)
             req, exp = g2.send(None)
-            stage = "m3"
-            m4 = acc.handle_m3(wire(req))
-            if name == "wrong-code":
-                # an accessory that does not know the code cannot verify M1; it answers with the proof of its own (wrong) exchange
-                A = int.from_bytes(dict(wire(req))[T_PK], "big")
-                acc.srp.finish(A)
-                m4 = [(T_STATE, b"\x04"), (T_PROOF, acc.srp.M2)]
-            elif name == "m4-flip":
-                m4 = [(t, flip(v, fault[1]) if t == T_PROOF else v) for t, v in m4]
-            elif name == "m4-truncate-proof":
-                n_ = 1 + fault[1] % 63
-                m4 = [(t, (v[-n_:] if fault[1] & 64 else v[:n_]) if t == T_PROOF else v) for t, v in m4]
-                if int.from_bytes(dict(m4)[T_PROOF], "big") == int.from_bytes(acc.srp.M2, "big"):
-                    name = "none"        # only zero bytes were dropped: numerically the same proof
-            elif name == "m4-drop-proof":
-                m4 = [(t, v) for t, v in m4 if t != T_PROOF]
-            elif name == "m4-other-proof":
-                other = refhap.SrpExchange(code, salt, b + 2).finish(acc.srp.A)
-                m4 = [(t, other.M2 if t == T_PROOF else v) for t, v in m4]
-            elif name == "m4-reorder":
-                m4 = list(reversed(m4))
-            elif name == "m4-drop-state":
-                m4 = [(t, v) for t, v in m4 if t != T_STATE]
-            stage = "m4"
-            req, exp = g2.send(dec(transport, tlv_enc(m4), exp))
-            stage = "m5"
-            m6 = acc.handle_m5(wire(req))
-            if name.startswith("m6-") and acc.m5_ok:
-                inner = acc.inner_m6()
-                enc_key, label = None, b"PS-Msg06"
-                rebuild = True
-                if name == "m6-flip":
-                    m6 = [(t, flip(v, fault[1]) if t == T_ENC else v) for t, v in m6]
-                    rebuild = False
-                elif name == "m6-drop-enc":
-                    m6 = [(t, v) for t, v in m6 if t != T_ENC]
-                    rebuild = False
-                elif name == "m6-reorder":
-                    m6 = list(reversed(m6))
-                    rebuild = False
-                elif name == "m6-drop-state":
-                    m6 = [(t, v) for t, v in m6 if t != T_STATE]
-                    rebuild = False
-                elif name == "m6-truncate":
-                    raw = tlv_enc(m6)
-                    m6 = None
-                    raw6 = raw[:1 + fault[1] % (len(raw) - 1)]
-                    rebuild = False
-                elif name == "m6-wrong-key":
-                    enc_key = h("wrong-key", k)
-                elif name == "m6-wrong-label":
-                    label = [b"PS-Msg05", b"PV-Msg02", b"PS-Msg04", bytes(8)][fault[1] % 4]
-                elif name == "m6-wrong-signer":
-                    inner = acc.inner_m6(sign_key=ed_from_seed(h("mallory", k)))
-                elif name == "m6-other-id-unsigned":      # signature made for the real id, another id presented
-                    inner = [(t, b"11:22:33:44:55:66" if t == T_ID else v) for t, v in inner]
-                elif name == "m6-other-ltpk-unsigned":    # signature by the real key, another key presented
-                    inner = [(t, ed_pub(ed_from_seed(h("mallory", k))) if t == T_PK else v) for t, v in inner]
-                elif name == "m6-dup-inner-other":
-                    # a second, unsigned Identifier / LTPK next to the signed ones (not adjacent to them), in either order
-                    other_id, other_pk = b"66:55:44:33:22:11", ed_pub(ed_from_seed(h("mallory", k)))
-                    extra = [[(T_ID, other_id)], [(T_PK, other_pk)], [(T_ID, other_id), (T_PK, other_pk)]][fault[1] % 3]
-                    inner = (inner + extra) if fault[1] & 4 else ([x for x in extra] + [(T_SIG, dict(inner)[T_SIG])] + [x for x in inner if x[0] != T_SIG] if False else extra[:0] + inner + extra)
-                    if not fault[1] & 4:
-                        # unsigned values first, then the signature, then the signed values
-                        inner = extra + [(T_SIG, dict(acc.inner_m6())[T_SIG])] + [x for x in acc.inner_m6() if x[0] != T_SIG]
-                elif name == "m6-transcript":
-                    order = [(1, 0, 2), (0, 2, 1), (2, 1, 0), (1, 2, 0), (2, 0, 1)][fault[1] % 5]
-                    inner = acc.inner_m6(transcript=lambda ax, idb, pk: b"".join([(ax, idb, pk)[i] for i in order]))
-                elif name == "m6-drop-inner":
-                    field = [T_ID, T_PK, T_SIG][fault[1] % 3]
-                    inner = [(t, v) for t, v in inner if t != field]
-                elif name == "m6-reorder-inner":
-                    inner = list(reversed(inner))
-                elif name == "m6-ltpk-len":
-                    n = [0, 31, 33][fault[1] % 3]
-                    inner = [(t, (v + b"\x00")[:n] if t == T_PK else v) for t, v in inner]
-                elif name == "m6-flip-inner":
-                    field = [T_ID, T_PK, T_SIG][fault[1] % 3]
-                    inner = [(t, flip(v, fault[2]) if t == field else v) for t, v in inner]
-                if rebuild:
-                    m6 = acc.m6(inner, enc_key=enc_key, label=label)
-            stage = "m6"
-            raw = raw6 if (name == "m6-truncate" and acc.m5_ok) else tlv_enc(m6)
-            g2.send(dec(transport, raw, exp))
+            for _ in range(2):
+                req, exp = g2.send(dec(transport, peer.respond(wire(req)), exp))
             raise RuntimeError("part2 yielded a fourth request")
         except StopIteration as r:
             result = r.value
         except Exception as e:  # noqa: BLE001
             exc = e
+    judge(case, R, peer, result, exc, transport)
+
+
+def judge(case, R, peer, result, exc, transport, verify=True):
+    name, acc, k = peer.name, peer.acc, peer.k
+    code, ios_id, acc_id, ident, stage = peer.code, peer.ios_id, peer.acc_id, peer.ident, peer.stage
+    R.nt(name != "none")
+    what = f"fault={peer.fault} decode={transport} code={code}"
+    if peer.malformed:
+        R.fail("C03.m1-malformed", peer.malformed)
+        return
     if result is not None:
         # whatever was returned must be exactly what the accessory's signature in M6 covers
         try:
@@ -248,12 +294,173 @@ def run_case(case, R):
     if PAD(acc.srp.A)[0] == 0 or PAD(acc.srp.B)[0] == 0 or PAD(acc.srp.S)[0] == 0 or acc.srp.M1[0] == 0 or acc.srp.K[0] == 0:
         R.nt()
         R.cls("leading-zero-hit")
+    if not verify:
+        return
     # final consistency: the returned record opens a session with the same accessory
     vw = VerifyWorld.__new__(VerifyWorld)
     vw.acc_id, vw.ios_id, vw.ident = acc_id, ios_id, ident
     vw.pairing_data = dict(result)
-    out = verify_exchange(vw, ("after-setup", k), transport)
+    out = verify_exchange(vw, ("after-setup", k), transport if transport in ("ip", "ble") else "ip")
     verify_check_honest(R, vw, out, "pair-verify with the returned record")
+
+
+# ------------------------------------------------------------------ the same exchange through the three transports' pairing entry points
+def _ids(mod, ios_id):
+    """The discovery classes draw the controller pairing id from uuid.uuid4(); route it to the generated value."""
+    orig = mod.uuid
+    mod.uuid = types.SimpleNamespace(uuid4=lambda: ios_id)
+    return orig
+
+
+async def _e2e_ip(loop, peer, case):
+    import aiohomekit.controller.ip.discovery as disc_mod
+    from aiohomekit.controller.ip.discovery import IpDiscovery
+    from aiohomekit.model.categories import Categories
+    from aiohomekit.model.feature_flags import FeatureFlags
+    from aiohomekit.model.status_flags import StatusFlags
+    from aiohomekit.zeroconf import HomeKitService
+    from vlib.ipworld import IpWorld
+    w = IpWorld(loop, hosts=("10.0.0.5",), k=peer.k)
+    orig = _ids(disc_mod, peer.ios_id)
+    try:
+        w.acc.setup_handler = peer.respond
+        w.controller.pairings = {}
+        desc = HomeKitService(name="Sim", id=case["acc_id"], model="M", feature_flags=FeatureFlags(1 if case.get("with_auth") else 0), status_flags=StatusFlags(1),
+                              config_num=1, state_num=1, category=Categories(5), protocol_version="1.1", type="_hap._tcp.local.", address="10.0.0.5",
+                              addresses=["10.0.0.5"], port=case.get("port", 51826))
+        d = IpDiscovery(w.controller, desc)
+        result, exc = None, None
+        try:
+            finish = await d.async_start_pairing("alias")
+            obj = await finish(peer.code)
+            result = obj.pairing_data
+        except Exception as e:  # noqa: BLE001
+            exc = e
+        extra = {"registered": w.controller.pairings.get("alias"), "obj": result, "expect": {"AccessoryIP": "10.0.0.5", "AccessoryIPs": ["10.0.0.5"], "AccessoryPort": case.get("port", 51826), "Connection": "IP"}}
+        try:
+            await d.close()
+        except Exception:  # noqa: BLE001
+            pass
+        return result, exc, extra
+    finally:
+        disc_mod.uuid = orig
+        w.restore()
+
+
+async def _e2e_coap(loop, peer, case):
+    import aiohomekit.controller.coap.connection as cconn_mod
+    from aiohomekit.controller.coap.discovery import CoAPDiscovery
+    from aiohomekit.model.categories import Categories
+    from aiohomekit.model.feature_flags import FeatureFlags
+    from aiohomekit.model.status_flags import StatusFlags
+    from aiohomekit.zeroconf import HomeKitService
+    from vlib.coapsim import CoapWorld
+    w = CoapWorld(loop, k=peer.k)
+    orig = _ids(cconn_mod, peer.ios_id)
+    try:
+        w.acc.setup_handler = peer.respond
+        ctl = w.pairing.controller
+        ctl.pairings = {}
+        desc = HomeKitService(name="Sim", id=case["acc_id"], model="M", feature_flags=FeatureFlags(1 if case.get("with_auth") else 0), status_flags=StatusFlags(1),
+                              config_num=1, state_num=1, category=Categories(5), protocol_version="1.1", type="_hap._udp.local.", address="fd00::1",
+                              addresses=["fd00::1"], port=case.get("port", 5683))
+        d = CoAPDiscovery(ctl, desc)
+        result, exc = None, None
+        try:
+            finish = await d.async_start_pairing("alias")
+            obj = await finish(peer.code)
+            result = obj.pairing_data
+        except Exception as e:  # noqa: BLE001
+            exc = e
+        extra = {"registered": ctl.pairings.get("alias"), "obj": result, "expect": {"AccessoryIP": "fd00::1", "AccessoryPort": case.get("port", 5683), "Connection": "CoAP"}}
+        return result, exc, extra
+    finally:
+        cconn_mod.uuid = orig
+        w.restore()
+
+
+async def _e2e_ble(loop, peer, case):
+    import aiohomekit.controller.ble.discovery as bdisc_mod
+    import aiohomekit.controller.ble.pairing as bpair_mod
+    from aiohomekit.controller.ble.discovery import BleDiscovery
+    from aiohomekit.controller.ble.manufacturer_data import HomeKitAdvertisement
+    from bleak.backends.device import BLEDevice
+    from vlib.bleworld import BleWorld
+    w = BleWorld(loop, k=peer.k, att_payload=case.get("att", 155))
+    orig = _ids(bdisc_mod, peer.ios_id)
+    orig_est = bdisc_mod.establish_connection
+    try:
+        bdisc_mod.establish_connection = bpair_mod.establish_connection       # the world's fake
+        w.acc.setup_handler = peer.respond
+        w.acc.setup_reply_pieces = case.get("pieces")
+        w.acc.feature_flags = 1 if case.get("with_auth") else 0
+        w.controller.pairings.clear()
+        desc = HomeKitAdvertisement.from_cache("00:11:22:33:44:55", case["acc_id"].lower(), 1, 1)
+        d = BleDiscovery(w.controller, BLEDevice("00:11:22:33:44:55", "Sim", None), desc, None)
+        result, exc = None, None
+        try:
+            finish = await d.async_start_pairing("alias")
+            obj = await finish(peer.code)
+            result = obj.pairing_data
+        except Exception as e:  # noqa: BLE001
+            exc = e
+        extra = {"registered": w.controller.pairings.get("alias"), "obj": result, "expect": {"AccessoryAddress": "00:11:22:33:44:55", "Connection": "BLE"}}
+        return result, exc, extra
+    finally:
+        bdisc_mod.uuid = orig
+        bdisc_mod.establish_connection = orig_est
+        w.restore()
+
+
+E2E = {"ip": _e2e_ip, "coap": _e2e_coap, "ble": _e2e_ble}
+
+
+def run_e2e(case, R):
+    from vlib import vtime
+    peer = SetupPeer(case)
+    transport = case["transport"]
+    R.cls("fault:" + peer.name, "transport:" + transport)
+    with injected(peer.a, peer.lt_seed):
+        result, exc, extra = vtime.run(E2E[transport], peer, case)
+    what = f"fault={peer.fault} transport={transport}"
+    if peer.requests == 0 and exc is not None:
+        raise exc          # nothing reached the accessory: the world is broken, not the code under test
+    if result is None and extra["registered"] is not None:
+        R.fail("C03.failed-pairing-registered", f"{what}: pairing failed with {exc!r:.120} but controller.pairings['alias'] exists", family=peer.name)
+        return
+    if result is not None:
+        reg = extra["registered"]
+        if reg is None or reg.pairing_data is not result:
+            R.fail("C03.record-inconsistent", f"{what}: the returned pairing is not the one registered under its alias")
+            return
+        bad = {k_: result.get(k_) for k_, v in extra["expect"].items() if result.get(k_) != v}
+        if bad:
+            R.fail("C03.record-inconsistent", f"{what}: transport fields {bad!r} differ from the discovered ones {extra['expect']!r}")
+            return
+    judge(case, R, peer, result, exc, transport, verify=case.get("verify_after", False))
+
+
+@st.composite
+def e2e_cases(draw):
+    case = draw(cases())
+    case.pop("decode", None)
+    case["transport"] = draw(st.sampled_from(["ip", "ble", "coap"]))
+    if case["transport"] == "ble":
+        case["att"] = draw(st.sampled_from([155, 155, 100, 512, 23]))
+        case["pieces"] = draw(st.sampled_from([None, None, 100, 60]))
+    case["verify_after"] = draw(st.integers(0, 9)) == 0
+    case["port"] = draw(st.sampled_from([5683, 51826, 1, 65535, 8080]))
+    return case
+
+
+def enum_e2e(tier):
+    for i, c in enumerate(enum_families("quick")):
+        for j, tr in enumerate(("ip", "ble", "coap")):
+            c2 = dict(c)
+            c2.pop("decode", None)
+            c2["transport"] = tr
+            c2["port"] = [5683, 51826, 49152][(i + j) % 3]
+            yield c2
 
 
 CODES = st.one_of(st.sampled_from(["000-00-000", "111-11-111", "123-45-678", "031-45-154"]),
@@ -331,6 +538,9 @@ SPEC = Property(
         Layer("fault-families", run_case, enumerate=enum_families, exhaustive=True,
               space="every fault family with its parameter grid (quick: sampled bit positions; thorough: every bit of salt/proof/M6, every 8th bit of B)", min_nontrivial=60),
         Layer("generated", run_case, strategy=cases, n={"quick": 2400, "thorough": 40000}, min_nontrivial=300),
+        Layer("end-to-end-families", run_e2e, enumerate=enum_e2e, exhaustive=True,
+              space="every fault family (quick grid) through IpDiscovery / BleDiscovery / CoAPDiscovery.async_start_pairing + finish_pairing on the simulated transports", min_nontrivial=30),
+        Layer("end-to-end-generated", run_e2e, strategy=e2e_cases, n={"quick": 300, "thorough": 6000}, min_nontrivial=100),
     ],
     assumptions=["reference accessory (vlib/refhap.py RefPairSetup, SrpExchange) written from HAP R2 5.6 and RFC 5054",
                  "an accessory that presents its own LTPK and signs with it is a legitimate pairing partner (pair-setup authenticates "
